@@ -10,11 +10,12 @@ EXTENDS Integers, Sequences, TLC, Json, IOUtils
 Trace == ndJsonDeserialize(IOEnv.VERIF_TRACE)
 VARIABLE l
 Init == l = 1 /\ TLCSet(1, 1)
-Viol(r) ==
-   (IF ~r.err /\ r.open > 0 THEN {"C14_FailClosed_AllowRule"} ELSE {})
-   \cup (IF r.bare > 0 /\ ~r.err /\ r.open = 0 /\ r.loaded = Len(r.names) THEN {"HARNESS_BareEntryHasARule"} ELSE {})
-\* the converse (a document in which every entry has its rule loads all of them) is compared as drift
-Drift(r) == IF r.bare = 0 /\ (r.err \/ r.loaded # Len(r.names)) THEN {"every entry has a rule, yet the document did not load completely"} ELSE {}
+Viol(r) == IF ~r.err /\ r.open > 0 THEN {"C14_FailClosed_AllowRule"} ELSE {}
+\* compared as drift: a document in which every entry has its rule loads all of them; an entry that states no rule
+\* does not come out with one (no deployment default is set: it can only have leaked from another entry)
+Drift(r) ==
+   (IF r.bare = 0 /\ (r.err \/ r.loaded # Len(r.names)) THEN {"every entry has a rule, yet the document did not load completely"} ELSE {})
+   \cup (IF r.bare > 0 /\ ~r.err /\ r.open = 0 /\ r.loaded = Len(r.names) THEN {"an entry that states no allow rule was loaded with one"} ELSE {})
 Step == /\ l <= Len(Trace)
         /\ \A v \in Viol(Trace[l]) : PrintT(<<"VIOL", l, {v}>>)
         /\ \A d \in Drift(Trace[l]) : PrintT(<<"DRIFT", l, {d}>>)
